@@ -475,10 +475,13 @@ class Superposition(SuperpositionDomain, ExprDict):
         for kind, value in self.items():
             if kind == 't':
                 decomp = new._decompose_timedomain_expr(value)
-                for key, value in decomp.items():
-                    new[key] = value
             else:
-                new[kind] = value
+                decomp = {kind: value}
+            for key, value in decomp.items():
+                if key in new:
+                    new[key] += value
+                else:
+                    new[key] = value
 
         self._decomposition = new
         return new
